@@ -525,7 +525,8 @@ type c31Case struct {
 	forceBig bool
 	cur      [c31NumWorkloads]*c31Session
 	ended    []*c31Session // processor-ended sessions whose Leave has not been delivered yet
-	nextUID  uint64
+	nextUID  uint64        // highest UID allocated so far
+	freeUIDs []uint64      // UIDs allocated (server.go: nextJoinUID()) whose JoinRequest has not reached the processor yet
 	ver      int
 	ops      []string
 	kinds    []string
@@ -1119,8 +1120,27 @@ func (c *c31Case) opJoin() bool {
 }
 
 func (c *c31Case) joinWorkload(w int) {
-	c.nextUID++
-	s := &c31Session{w: w, uid: c.nextUID, ch: make(chan *proto.ToDataplane, 4096), active: true,
+	// Server.Sync allocates the join UID and only then sends the JoinRequest, one goroutine per
+	// connection: UIDs are unique and increasing at allocation but reach the processor in any order.
+	var uid uint64
+	if len(c.freeUIDs) > 0 && rapid.IntRange(0, 2).Draw(c.t, "joinArrivesLate") != 0 {
+		i := rapid.IntRange(0, len(c.freeUIDs)-1).Draw(c.t, "lateUID")
+		uid = c.freeUIDs[i]
+		c.freeUIDs = append(c.freeUIDs[:i:i], c.freeUIDs[i+1:]...)
+		c.classes["join-uid-lower-than-earlier-arrival"] = true
+		if old := c.cur[w]; old != nil && old.active && old.uid > uid {
+			c.classes["rejoin-with-lower-uid-replaces-active"] = true
+		}
+	} else {
+		overtaken := rapid.SampledFrom([]int{0, 0, 0, 1, 1, 2}).Draw(c.t, "overtakenAllocations")
+		for i := 0; i < overtaken; i++ {
+			c.nextUID++
+			c.freeUIDs = append(c.freeUIDs, c.nextUID)
+		}
+		c.nextUID++
+		uid = c.nextUID
+	}
+	s := &c31Session{w: w, uid: uid, ch: make(chan *proto.ToDataplane, 4096), active: true,
 		pols: map[string]*proto.Policy{}, profs: map[string]*proto.Profile{}, sets: map[string]*c31FoldSet{},
 		sas: map[string]*proto.ServiceAccountUpdate{}, nss: map[string]*proto.NamespaceUpdate{},
 		cmpVer: map[string]int{}, lastNeed: "\x00", seen: map[string]bool{}}
@@ -1178,6 +1198,9 @@ func (c *c31Case) opStaleLeave() bool {
 	c.classes["stale-leave"] = true
 	if cur := c.cur[s.w]; cur != nil && cur.active {
 		c.classes["stale-leave-while-rejoined"] = true
+		if s.uid > cur.uid {
+			c.classes["stale-leave-with-higher-uid-than-live-join"] = true
+		}
 	}
 	c.op("S", "Leave(w%d,uid=%d) [stale]", s.w, s.uid)
 	c.p.handleLeave(LeaveRequest{JoinMetadata{EndpointID: c31WepID(s.w), JoinUID: s.uid}})
@@ -1224,7 +1247,7 @@ var c31OpTable = func() []int {
 const c31Assume1 = "service accounts and namespaces are broadcast to every joined workload by design (sendServiceAccounts/sendNamespaces), so for them 'needs' = all current ones"
 const c31Assume2 = "IP set members are compared after address-text canonicalisation (own implementation); within one IPSetDeltaUpdate added members are not in the set and removed members are (as the calc graph emits them)"
 const c31Assume3 = "InSync messages are ignored; after WorkloadEndpointRemove the stream is over (either the removal was delivered or the channel closed)"
-const c31Assume4 = "Leave requests carry the JoinUID of a real earlier join and each join sends at most one Leave (server.go)"
+const c31Assume4 = "Leave requests carry the JoinUID of a real earlier join and each join sends at most one Leave, after its own join (server.go); join UIDs are unique but reach the processor in any order relative to their allocation (Server.Sync allocates, then sends)"
 
 func TestVerifC31PolicySyncStreams(t *testing.T) {
 	ev.Quiet()
